@@ -12,6 +12,7 @@
      30 cumulative invariant broken (balance < 0 or balance + withdrawn <> matured)
      31 a withdrawal paid more than the matured balance
      33 a validator's matured total exceeds what was credited to it   34 matured rewards exceed the total distributed
+     37 TillLastCycle was not snapshotted at the previous cycle end   38 pulled * forecast exceeds what the year really had left at the cycle start
      35 a block reported less to ConsumeRewards than it really credited   36 a reward year's real credits exceed its supply
      32 a WITHDRAW_REWARD amount that is negative or outside int64 was not refused                                  *)
 From Coq Require Import ZArith List Bool.
@@ -195,8 +196,16 @@ Fixpoint check_blocks_acc (o : opts) (c : cache) (i : Z) (acc : list Z) (sf : bo
       let acc0 := match acc with [] => map y_dist (b_years b) | _ => acc end in
       let acc1 := add_to_moved acc0 (b_years b) (ob_years b) (really_credited b) in
       let sf1 := sf || short_forecast o (bt_of o b) (b_years b) (b_h b) in
+      let nb := more_blocks o (fst (secs_per_cycle o (bt_of o b) (b_h b))) (snd (secs_per_cycle o (bt_of o b) (b_h b))) (b_years b) 0 in
       let books :=
-        flag 35 (really_credited b <=? ob_consumed b)
+        (* 37: when a cycle starts (not the first block of a chain: an import may be mid-cycle) every
+           year's TillLastCycle equals its Distributed — the snapshot of the previous cycle end was taken;
+           38: at the first block of a cycle, pulled * forecast <= supply - Distributed of the running year *)
+        flag 37 (negb (first_in_cycle o (b_h b)) || (b_h b =? 1)
+                 || forallb (fun y => y_till y =? y_dist y) (b_years b))
+        ++ flag 38 (negb (first_in_cycle o (b_h b)) || (b_h b =? 1) || negb (ob_pull_ok b) || (fst nb <=? 0)
+                    || (ob_pull b * fst nb <=? nthZ (o_shares o) (snd nb) 0 - y_dist (nthZ (b_years b) (snd nb) (mkYear 0 0 0))))
+        ++ flag 35 (really_credited b <=? ob_consumed b)
         ++ flag 36 (sf1 || forallb (fun p => fst p <=? snd p) (combine acc1 (o_shares o))) in
       flat_map (fun code => [i; code])
         (fst res ++ monitor_blk o b ++ books ++ flat_map check_wtx (b_wtxs b) ++ check_dump o b)
